@@ -14,11 +14,17 @@ def main(rep):
     for i in range(n):
         t, m = wc.gen_burst_case(rng)
         cases.append(("b%d" % i, t, m))
+    # a file whose POLICY changed (it was an append-only history path, the configuration now in force makes it an
+    # ordinary file - or the other way round) is written as a whole and left alone: one version with its content
+    import check_C05
+    for i in range(max(10, n // 20)):
+        t, m = check_C05.gen_policy_change_case(rng)
+        cases.append(("pc%d" % i, t, m))
     wk.standard_main(rep, cases=cases, monitors=MON,
                      rule=("random histories of bursts (1-3 writes) to 5 files (plain, extension-less, nested, history), clock steps {0,1,2,d,d+1}, "
                            "timeout passes with dumps before and after, restarts; debounce in {0,1,2,3}; the burst monitor recomputes from the queue directory "
                            "which paths are due (reference FIFO) and demands exactly one new version with the current content for each readable one, none otherwise, "
-                           "the expected remaining queue and the expected wait; every case contains at least one pass over a non-empty queue"))
+                           "the expected remaining queue and the expected wait; every case contains at least one pass over a non-empty queue; plus a path whose policy changes between history and ordinary by a reload and which is then rewritten as a whole: the version holds its content"))
 
 
 def replay(rep, path):
